@@ -234,9 +234,16 @@ def gen_spec(rng, profile=None, uid=None):
             nm = f"fn{next(namen)}"
             cid = new_cb(nm, "sm", "func")
             return {"by": "obj", "cb": cid}
-        nm = f"lam{next(namen)}"
-        cid = new_cb(nm, "sm", "lambda")
+        if r < 0.92 or not P.get("p_boundm", 1.0):
+            nm = f"lam{next(namen)}"
+            cid = new_cb(nm, "sm", "lambda")
+            cbs[cid]["async"] = False
+            return {"by": "obj", "cb": cid}
+        # a bound method of a helper object (two helpers of ONE class are passed side by side, see fill_refs)
+        nm = f"bm{next(namen)}"
+        cid = new_cb(nm, "sm", "boundm")
         cbs[cid]["async"] = False
+        cbs[cid]["script"].pop("sends", None)
         return {"by": "obj", "cb": cid}
 
     def fill_refs(refs, groups):
@@ -246,12 +253,18 @@ def gen_spec(rng, profile=None, uid=None):
                 for _ in range(rng.choice([1, 1, 2])):
                     if made and rng.random() < P["p_reuse_ref"]:
                         r = dict(rng.choice(made))
-                        if r not in refs[g] and not (r["by"] == "obj" and cbs[r["cb"]]["kind"] == "lambda"):
+                        if r not in refs[g] and not (r["by"] == "obj" and cbs[r["cb"]]["kind"] in ("lambda", "boundm")):
                             refs[g].append(r)
                             continue
                     r = inline_ref("x")
                     refs[g].append(r)
                     made.append(r)
+                    if r["by"] == "obj" and cbs[r["cb"]]["kind"] == "boundm":
+                        nm2 = f"bm{next(namen)}"
+                        cid2 = new_cb(nm2, "sm", "boundm")
+                        cbs[cid2]["async"] = False
+                        cbs[cid2]["script"].pop("sends", None)
+                        refs[g].append({"by": "obj", "cb": cid2})
 
     for t in trans:
         if t.get("from_any") is not None and t is not any_decls[t["from_any"]]["copies"][0]:
@@ -290,7 +303,7 @@ def gen_spec(rng, profile=None, uid=None):
     if amode == "one":
         pool = list(cbs)
         if pool:
-            cbs[rng.choice([c for c in pool if cbs[c]["kind"] != "lambda"] or pool)]["async"] = True
+            cbs[rng.choice([c for c in pool if cbs[c]["kind"] not in ("lambda", "boundm")] or pool)]["async"] = True
         elif validators:
             validators[rng.choice(list(validators))]["async"] = True
     rtc = P["rtc"] if P["rtc"] is not None else (rng.random() < 0.75)
